@@ -617,11 +617,14 @@ impl Scenario for Pipeline {
                 ("jet1090::update, table::build_table, web::all (judged), web::icao24 / sensors / track (exercised), Jet1090 behind Arc<tokio::sync::Mutex>", "real"),
                 app::main_loop_component(),
                 ("Source::from_str / Source::serial / sensor::sensors (serials and references per receiver, main.rs:326-333)", "real"),
-                ("TUI loop, expiry sweep, event reader, channel wiring", "stub (closures inlined in main(), re-stated)"),
+                ("channel wiring and task spawning of main()", "stub (re-stated)"),
                 ("aircraft, transponders, radio channel, receivers' firmware, network", "stub (simulated world, independent encoder = ground truth)"),
                 ("tap between the receivers' channel and dedup (80 % of the runs)", "stub (forwarding task that records the arrival order)"),
                 ("tokio runtime / scheduler / clock / terminal", "stub (seeded executor, discrete-event clock, TestBackend)"),
-            ],
+            ]
+            .into_iter()
+            .chain(super::realtui::components())
+            .collect(),
             assumptions: vec![
                 "connections are never closed: after end of stream beast::receiver re-polls a finished stream in a loop that never suspends (outside the listed properties, see DESIGN.md)",
                 "C06 clause: a record is judged when every earlier record of the same aircraft since the last silence of 180 s was handed over within 3 s of its encoding (measured by the harness at the tap; without the tap, read from the stamp) and no wall-clock step was in effect; the references of the receivers that hear surface traffic lie within 30 NM of the surface segment (distant receivers, 100-400 NM away, hear airborne traffic only); only the first aircraft has surface segments",
@@ -974,12 +977,16 @@ pub fn execute(plan: &PipelinePlan, prop: &'static str) -> Outcome<PipelinePlan>
     };
     // TUI
     let tui_shared = Rc::new(RefCell::new(c17::Shared::new()));
+    super::realtui::reset();
     let tui_task = if !plan.events.is_empty() {
         Some(c17::spawn_tui(&mut sim, &app, &plan.events, plan.term.0, plan.term.1, &tui_shared))
     } else {
         None
     };
-    if plan.sweep.0 > 0 {
+    let real_expiry = plan.sweep.0 > 0 && super::realtui::expiry_available();
+    if real_expiry {
+        super::realtui::spawn_expiry(&mut sim, &app, plan.sweep.1);
+    } else if plan.sweep.0 > 0 {
         c17::spawn_sweep(&mut sim, &app, plan.sweep.0, plan.sweep.1, plan.t_flush_ns + 2_000_000_000, &tui_shared);
     }
     // readers
@@ -1031,13 +1038,19 @@ pub fn execute(plan: &PipelinePlan, prop: &'static str) -> Outcome<PipelinePlan>
     }
 
     let total_bytes: u64 = 40 * heard + 200;
-    let step_cap = 20_000 + 60 * total_bytes + 60 * plan.events.len() as u64;
+    let step_cap = 20_000 + 60 * total_bytes + 60 * plan.events.len() as u64 + 16 * (plan.session_end_ns.max(plan.t_flush_ns) / 250_000_000);
     let mut multi = 0u64;
     let mut last_choice = 0u64;
-    let end = sim.run(step_cap, |s, _id, _done| {
+    let session_end = plan.session_end_ns.max(plan.t_flush_ns) + 10_000_000_000;
+    let end = sim.run(step_cap, |s, id, done| {
         if s.choice_points > last_choice {
             multi += s.choice_points - last_choice;
             last_choice = s.choice_points;
+        }
+        // the endless tasks of the terminal side (reader, expiry) end with the
+        // session, as the process would exit
+        if (done && Some(id) == tui_task) || (tui_task.is_none() && exec::now_ns() > session_end) {
+            super::realtui::cancel_endless(s);
         }
         true
     });
@@ -1379,7 +1392,7 @@ pub fn execute(plan: &PipelinePlan, prop: &'static str) -> Outcome<PipelinePlan>
     }
 
     // -- C12 on the table
-    let sweep_ran = tsh.counters.get("expired_by_sweep").copied().unwrap_or(0) > 0;
+    let sweep_ran = tsh.counters.get("expired_by_sweep").copied().unwrap_or(0) > 0 || (real_expiry && out.sim_ns > 60_000_000_000);
     if plan.sweep.0 > 0 {
         out.count("expiry_sweep_run", 1);
     }
